@@ -194,6 +194,30 @@ func c47KeyCoherence(r *core.Report, p *core.Prog) {
 					return true
 				}
 			}
+			// bytes and id handed back together by one helper call: on every success return of
+			// the helper the id result is Hash(the bytes result)
+			be, ok1 := bytesV.(*ssa.Extract)
+			ie, ok2 := st.Val.(*ssa.Extract)
+			if ok1 && ok2 && be.Tuple == ie.Tuple {
+				if hc, isC := be.Tuple.(*ssa.Call); isC {
+					if h := hc.Call.StaticCallee(); h != nil && h.Blocks != nil {
+						okAll, n := true, 0
+						for _, ret := range core.SuccessExits(h) {
+							n++
+							c, isCall := core.ResultValue(ret, ie.Index).(*ssa.Call)
+							if !isCall || c.Common().StaticCallee() != hash {
+								okAll = false
+								continue
+							}
+							mi, isMI := c.Call.Args[0].(*ssa.MakeInterface)
+							if !isMI || mi.X != core.ResultValue(ret, be.Index) {
+								okAll = false
+							}
+						}
+						return okAll && n > 0
+					}
+				}
+			}
 			return false
 		}
 		idOK = true
@@ -542,12 +566,28 @@ func c47ClientID(r *core.Report, p *core.Prog) {
 		r.Unresolved("C47.client-id", "encryption.Hash")
 		return
 	}
-	isHashOfKey := func(fn *ssa.Function, v ssa.Value) (bool, string) {
-		c, ok := v.(*ssa.Call)
+	var isHashOfKey func(fn *ssa.Function, v ssa.Value) (bool, string)
+	isHashOfKey = func(fn *ssa.Function, v ssa.Value) (bool, string) {
+		inner, bind := core.Unbind(v)
+		c, ok := inner.(*ssa.Call)
 		if !ok || c.Common().StaticCallee() != hash {
 			// ToKey(Hash(..)) wrappers
 			if ok && len(c.Call.Args) == 1 && strings.HasSuffix(core.CalleeName(c.Common()), ".ToKey") {
 				return false, "wrapped"
+			}
+			// the id handed back by a helper of the module: every value it can return is the hash of the key
+			if bind == nil {
+				if lv := ValueLeaves(v, 1); len(lv) > 0 && !(len(lv) == 1 && lv[0] == v) {
+					for _, l := range lv {
+						if k, isK := l.(*ssa.Const); isK && k.Value != nil && k.Value.ExactString() == `""` {
+							continue // the value returned next to an error
+						}
+						if ok2, why := isHashOfKey(fn, l); !ok2 {
+							return false, why
+						}
+					}
+					return true, ""
+				}
 			}
 			return false, "not encryption.Hash(…)"
 		}
@@ -558,8 +598,24 @@ func c47ClientID(r *core.Report, p *core.Prog) {
 			}
 		}
 		for _, l := range leaves {
-			if prm, ok := l.(*ssa.Parameter); ok && strings.Contains(strings.ToLower(prm.Name()), "key") {
-				return true, ""
+			if prm, ok := l.(*ssa.Parameter); ok {
+				if a, bound := bind[prm]; bound {
+					fa, la := FlowLoadsDeep(a)
+					for k := range fa {
+						if strings.HasSuffix(k, ".PublicKey") || strings.HasSuffix(k, ".PublicKeyBytes") {
+							return true, ""
+						}
+					}
+					for _, l2 := range la {
+						if p2, ok := l2.(*ssa.Parameter); ok && strings.Contains(strings.ToLower(p2.Name()), "key") {
+							return true, ""
+						}
+					}
+					continue
+				}
+				if strings.Contains(strings.ToLower(prm.Name()), "key") {
+					return true, ""
+				}
 			}
 		}
 		return false, "the hashed value is not the public key"
